@@ -532,6 +532,99 @@ def r5_ducb(ck, repo, nf: NF):
     ck.ob("R5-scheduler", rq, "reward-then-refresh", ok, " ; ".join(calls), "" if ok else "reward() must record the reward and then refresh the discounted frequencies", loc(rf._module, rf))
 
 
+def r5_ducb_mean(ck, repo, nf: NF):
+    """Sibling agreement: the discounted mean is sum_{s in W, arm(s)=i} w(s) r(s) / N(i) with N(i) = sum_{s in W, arm(s)=i} w(s):
+    numerator (in _discounted_empirical_mean) and normaliser (maintained by _episode_finished) must use the same window W and weights w."""
+    C = "rl_blox.blox.mapb.DUCB"
+    mq, eq, pq = C + "._discounted_empirical_mean", C + "._episode_finished", C + "._padding_function"
+    mf, ef, pf = repo.func(mq), repo.func(eq), repo.func(pq)
+    mi = mf._module
+    SV = Poly.atom("§s", {"§s"}, {"§s"})
+    ecfg = nf.cfg_of(ef)
+    _loops = [n for n in ecfg.nodes if n.kind == "for" and isinstance(n.ast.target, ast.Name)]
+    if len(_loops) == 1:
+        # the loop variable of the normaliser's history loop is the shared symbol for `history position`
+        _body = [n for n in ecfg.nodes if n.kind == "stmt" and _loops[0].id in ecfg.enclosing_loops(n.id)]
+        if _body:
+            SV = nf.name(_loops[0].ast.target.id, Scope(ecfg, mi, {}, eq), _body[0].id)
+    # ---- numerator -------------------------------------------------------------------------------------
+    cfg = nf.cfg_of(mf)
+    comps = [(n, c) for n in cfg.nodes if n.kind == "stmt" and n.ast is not None for c in ast.walk(n.ast) if isinstance(c, (ast.ListComp, ast.GeneratorExp))]
+    ck.need(len(comps) == 1 and len(comps[0][1].generators) == 1 and isinstance(comps[0][1].generators[0].target, ast.Name), f"{mq}: numerator is not a single comprehension over the history (unrecognised idiom)")
+    node, comp = comps[0]
+    gen = comp.generators[0]
+    var = gen.target.id
+    sc = Scope(cfg, mi, {var: SV}, mq)
+    arm = positional_params_(mf)[0] if positional_params_(mf) else "arm_idx"
+    num_range = nf.poly(gen.iter, sc, node.id).canon()
+    conds = [nf.poly(c, sc, node.id).canon() for c in gen.ifs]
+    want_cond = nf.poly(parse_expr(f"self.chosen_arms[{var}] == {arm}"), sc, node.id).canon()
+    ok = conds == [want_cond]
+    ck.ob("R5-scheduler", mq, "mean-filters-arm", ok, f"if {conds}", "" if ok else f"the numerator must sum exactly the rewards of the evaluated arm ({want_cond})", loc(mi, comp))
+    elt = nf.poly(comp.elt, sc, node.id)
+    rets = [n for n in cfg.nodes if n.kind == "stmt" and isinstance(n.ast, ast.Return)]
+    ck.need(len(rets) == 1, f"{mq}: expected one return")
+    got = nf.poly(rets[0].ast.value, Scope(cfg, mi, {}, mq), rets[0].id).canon()
+    comp_atom = nf.poly(comp, Scope(cfg, mi, {}, mq), node.id).canon()
+    want = nf.poly(parse_expr(f"np.sum(__c) / self.discounted_frequencies[{arm}]"), Scope(None, mi, {"__c": nf.poly(comp, Scope(cfg, mi, {}, mq), node.id)}, mq), None).canon()
+    ck.ob("R5-scheduler", mq, "mean-normalised-by-frequency", got == want, got[:150], "" if got == want else f"the discounted mean must be the weighted reward sum divided by the arm's discounted frequency N(i): {want[:150]}", loc(mi, rets[0].ast))
+    # ---- normaliser ---------------------------------------------------------------------------------------
+    ecfg = nf.cfg_of(ef)
+    F = "self.discounted_frequencies"
+    writes = [n for n in ecfg.nodes if n.kind == "stmt" and isinstance(n.ast, (ast.Assign, ast.AugAssign)) and dotted(((n.ast.targets[0] if isinstance(n.ast, ast.Assign) else n.ast.target).value) if isinstance((n.ast.targets[0] if isinstance(n.ast, ast.Assign) else n.ast.target), ast.Subscript) else (n.ast.targets[0] if isinstance(n.ast, ast.Assign) else n.ast.target)) == F]
+    loops_ = [n for n in ecfg.nodes if n.kind == "for"]
+    den_range = den_w = None
+    form = None
+    if len(writes) == 2 and isinstance(writes[0].ast, ast.Assign) and ast.unparse(writes[0].ast.targets[0]) == F + "[:]" and isinstance(writes[0].ast.value, ast.Constant) and writes[0].ast.value.value == 0 \
+            and isinstance(writes[1].ast, ast.AugAssign) and isinstance(writes[1].ast.op, ast.Add) and len(loops_) == 1 and loops_[0].id in ecfg.enclosing_loops(writes[1].id) and not ecfg.enclosing_loops(writes[0].id) \
+            and isinstance(loops_[0].ast.target, ast.Name):
+        # windowed recomputation:  N[:] = 0; for s in W: N[arm(s)] += w(s)
+        form = "windowed-recomputation"
+        lv = loops_[0].ast.target.id
+        esc = Scope(ecfg, mi, {}, eq)
+        den_range = nf.poly(loops_[0].ast.iter, esc, loops_[0].id).canon()
+        den_w = nf.poly(writes[1].ast.value, esc, writes[1].id)
+        ix = nf.poly(writes[1].ast.target.slice, esc, writes[1].id).canon()
+        okix = ix == nf.poly(parse_expr(f"self.chosen_arms[{lv}]"), esc, writes[1].id).canon()
+        ck.ob("R5-scheduler", eq, "frequency-of-chosen-arm", okix, f"N[{ix}] += w", "" if okix else "each history entry must add its weight to the arm chosen at that entry", loc(mi, writes[1].ast))
+    elif len(writes) == 2 and all(isinstance(w.ast, ast.AugAssign) for w in writes) and not loops_ \
+            and isinstance(writes[0].ast.op, ast.Mult) and isinstance(writes[0].ast.target, ast.Attribute) and isinstance(writes[1].ast.op, ast.Add) and ecfg.dominates(writes[0].id, writes[1].id):
+        # recurrence  N <- g N + e_{last arm}: closed form  N(i) = sum_{s in [0,t)} g^(t-1-s) [arm(s) = i]   (unbounded window)
+        esc = Scope(ecfg, mi, {}, eq)
+        g = nf.poly(writes[0].ast.value, esc, writes[0].id)
+        inc = nf.poly(writes[1].ast.value, esc, writes[1].id).canon()
+        ix = nf.poly(writes[1].ast.target.slice, esc, writes[1].id).canon()
+        if inc == "1" and ix == nf.poly(parse_expr("self.chosen_arms[-1]"), esc, None).canon():
+            form = "recurrence"
+            tl = nf.poly(parse_expr("len(self.chosen_arms)"), Scope(None, mi, {}, eq), None)
+            den_range = nf.poly(parse_expr("range(0, len(self.chosen_arms))"), Scope(None, mi, {}, eq), None).canon()
+            den_w = nf.poly(parse_expr("__g ** (__t - 1 - __s)"), Scope(None, mi, {"__g": g, "__t": tl, "__s": SV}, eq), None)
+    if form is None:
+        raise AnalysisError(f"{eq}: the maintenance of the discounted frequencies matches neither the windowed recomputation nor the recurrence idiom: sibling agreement with the discounted mean cannot be decided")
+    rng_norm = lambda r: r.replace("range(0, ", "range(")
+    okr = rng_norm(num_range) == rng_norm(den_range)
+    ck.ob("R5-scheduler", C, "mean-window-agreement", okr, f"numerator over {num_range}; frequencies ({form}) over {den_range}",
+          "" if okr else "the discounted reward sum and the discounted frequency it is divided by range over different parts of the history: the ratio is not a weighted mean (it leaves the reward range once the histories differ)", loc(mi, ef))
+    rw = nf.poly(parse_expr(f"self.rewards[{var}]"), sc, node.id)
+    okw = (elt - den_w * rw).is_zero()
+    ck.ob("R5-scheduler", C, "mean-weight-agreement", okw, f"numerator term {elt.canon()[:110]}; frequency weight {den_w.canon()[:80]}",
+          "" if okw else "the numerator must weight reward s by the same discount that entry s contributes to the arm's discounted frequency", loc(mi, comp))
+    # total frequency and padding
+    tot = [n for n in ecfg.nodes if n.kind == "stmt" and isinstance(n.ast, ast.Assign) and dotted(n.ast.targets[0]) == "self.total_frequency"]
+    ok = len(tot) == 1 and nf.poly(tot[0].ast.value, Scope(None, mi, {}, eq), None).canon() == f"sum({F})" and all(ecfg.paths_avoiding(tot[0].id, w.id, set()) is None for w in writes) and not ecfg.control_deps(tot[0].id)
+    ck.ob("R5-scheduler", eq, "total-frequency", ok, short(tot[0].ast, 80) if tot else "missing", "" if ok else "n_t must be the sum of the refreshed discounted frequencies", loc(mi, ef))
+    pcfg = nf.cfg_of(pf)
+    prets = [n for n in pcfg.nodes if n.kind == "stmt" and isinstance(n.ast, ast.Return)]
+    parm = positional_params_(pf)[0] if positional_params_(pf) else "arm_idx"
+    got = nf.poly(prets[0].ast.value, Scope(pcfg, mi, {}, pq), prets[0].id).canon()
+    want = nf.poly(parse_expr(f"2 * self.upper_bound * np.sqrt(self.zeta * np.log(self.total_frequency) / self.discounted_frequencies[{parm}])"), Scope(None, mi, {}, pq), None).canon()
+    ck.ob("R5-scheduler", pq, "padding-formula", got == want, got, "" if got == want else f"exploration bonus must be 2B*sqrt(zeta*log(n_t)/N_t(i)) = {want}", loc(mi, pf))
+
+
+def positional_params_(fn):
+    return [a.arg for a in fn.args.args if a.arg != "self"]
+
+
 def r5_budget_symbolic(ck, repo, nf: NF, qual: str, budget: str):
     """Per-task totals and global counter receive the same increments on every path (symbolic difference)."""
     fn = repo.func(qual)
@@ -809,6 +902,7 @@ def run(ck, repo: Repo, tier: str):
     ck.note("batch collectors (reinforce.sample_trajectories, a2c/ppo collect_trajectories) check their budget once per batch by documented design: no R2 verdict")
     r5_selectors(ck, repo)
     r5_ducb(ck, repo, nf)
+    r5_ducb_mean(ck, repo, nf)
     for q, b in MT_LOOPS.items():
         r5_budget_symbolic(ck, repo, nf, q, b)
         if not q.endswith("train_uts"):
@@ -839,6 +933,12 @@ MUTANTS = [
     {"id": "c11-selector-feedback-early-return", "file": "rl_blox/blox/multitask.py", "rule": "R5", "find": "            self.ducb.chosen_arms = self.ducb.chosen_arms[:-1]\n", "replace": "            self.ducb.chosen_arms = self.ducb.chosen_arms[:-1]\n            self.last_rewards[self.chosen_arm].append(reward)\n            return\n"},
     {"id": "c11-selector-raw-index", "file": "rl_blox/blox/multitask.py", "rule": "R5", "find": "        return self.tasks[self.i % len(self.tasks)]", "replace": "        return self.i % len(self.tasks)"},
     {"id": "c11-ducb-init-rounds", "file": "rl_blox/blox/mapb.py", "rule": "R5", "find": "        if len(self.rewards) < 2 * self.n_arms:", "replace": "        if len(self.rewards) < self.n_arms - 1:"},
+    {"id": "c11-ducb-recurrence-vs-window", "file": "rl_blox/blox/mapb.py", "rule": "R5", "find": "        self.discounted_frequencies[:] = 0.0\n        t = len(self.chosen_arms)\n        for s in range(max(0, t - 250), t):\n            self.discounted_frequencies[self.chosen_arms[s]] += self.gamma ** (\n                t - 1 - s\n            )\n", "replace": "        self.discounted_frequencies *= self.gamma\n        self.discounted_frequencies[self.chosen_arms[-1]] += 1.0\n"},
+    {"id": "c11-ducb-numerator-window", "file": "rl_blox/blox/mapb.py", "rule": "R5", "find": "                for s in range(max(0, t - 250), t)\n", "replace": "                for s in range(max(0, t - 100), t)\n"},
+    {"id": "c11-ducb-weight-offset", "file": "rl_blox/blox/mapb.py", "rule": "R5", "find": "                self.gamma ** (t - 1 - s) * self.rewards[s]", "replace": "                self.gamma ** (t - s) * self.rewards[s]"},
+    {"id": "c11-ducb-mean-unnormalised", "file": "rl_blox/blox/mapb.py", "rule": "R5", "find": "        return discounted_rewards / self.discounted_frequencies[arm_idx]", "replace": "        return discounted_rewards / self.total_frequency"},
+    {"id": "c11-ducb-padding-no-log", "file": "rl_blox/blox/mapb.py", "rule": "R5", "find": "                * np.log(self.total_frequency)\n", "replace": "                * self.total_frequency\n"},
+    {"id": "c11-ducb-frequency-wrong-arm", "file": "rl_blox/blox/mapb.py", "rule": "R5", "find": "            self.discounted_frequencies[self.chosen_arms[s]] += self.gamma ** (", "replace": "            self.discounted_frequencies[self.chosen_arms[t - 1 - s]] += self.gamma ** ("},
     {"id": "c11-ducb-minus-padding", "file": "rl_blox/blox/mapb.py", "rule": "R5", "find": "            ducb = mean + padding", "replace": "            ducb = mean - padding"},
     {"id": "c11-ducb-argmin", "file": "rl_blox/blox/mapb.py", "rule": "R5", "find": "            arm_idx = np.argmax(ducb)", "replace": "            arm_idx = np.argmin(ducb)"},
     {"id": "c11-smt-early-overshoot", "file": _A + "smt.py", "rule": "R5", "nth": 0, "find": "            steps = sum(env_with_stats.length_queue)\n            training_steps[task_id] += steps\n            global_step += steps\n            progress.update(steps)\n\n            if len(env_with_stats.return_queue) != scheduling_interval:\n                # early termination because we reached step limit\n                unlogged_steps = b1 - global_step\n                global_step = b1\n                training_steps[task_id] += unlogged_steps\n                progress.update(unlogged_steps)\n",
@@ -864,5 +964,6 @@ BENIGN = [
     {"id": "c11-b-rollout-done-var", "file": "rl_blox/util/experiment_helper.py", "find": "    while not (terminated or truncated):", "replace": "    while not terminated and not truncated:"},
     {"id": "c11-b-smt-early-one-shot", "file": _A + "smt.py", "nth": 0, "find": "            steps = sum(env_with_stats.length_queue)\n            training_steps[task_id] += steps\n            global_step += steps\n            progress.update(steps)\n\n            if len(env_with_stats.return_queue) != scheduling_interval:\n                # early termination because we reached step limit\n                unlogged_steps = b1 - global_step\n                global_step = b1\n                training_steps[task_id] += unlogged_steps\n                progress.update(unlogged_steps)\n",
      "replace": "            steps = sum(env_with_stats.length_queue)\n            if len(env_with_stats.return_queue) != scheduling_interval:\n                steps = b1 - global_step\n            training_steps[task_id] += steps\n            global_step += steps\n            progress.update(steps)\n"},
+    {"id": "c11-b-ducb-window-300", "file": "rl_blox/blox/mapb.py", "edits": [("                for s in range(max(0, t - 250), t)\n", "                for s in range(max(0, t - 300), t)\n"), ("        for s in range(max(0, t - 250), t):\n", "        for k in range(max(0, t - 300), t):\n"), ("            self.discounted_frequencies[self.chosen_arms[s]] += self.gamma ** (\n                t - 1 - s\n            )", "            self.discounted_frequencies[self.chosen_arms[k]] += self.gamma ** (\n                t - k - 1\n            )")]},
     {"id": "c11-b-smt-steps-local", "file": _A + "smt.py", "nth": 0, "find": "            steps = sum(env_with_stats.length_queue)\n            training_steps[task_id] += steps\n            global_step += steps\n", "replace": "            steps = sum(env_with_stats.length_queue)\n            global_step += steps\n            training_steps[task_id] += steps\n"},
 ]
